@@ -40,7 +40,11 @@ def tablesDiag (pid : String) : String :=
       GGV.Gen.packageVars.filterMap (fun v =>
         if v.2 == "*analysis.Analyzer" || v.2 == "*regexp.Regexp" || v.2 == "*ahocorasick.Matcher" ||
            v.2 == "map[string][]codes.Code" || v.2 == "map[string][]string" || v.2 == "*config.Config" || v.2 == "sync.Once" then none
-        else some s!"package-level-variable-{v.1}-of-type-{v.2.replace " " "_"}")
+        else some s!"package-level-variable-{v.1}-of-type-{v.2.replace " " "_"}") ++
+      GGV.Gen.sharedReadMethods.filterMap (fun m =>
+        if m.2 == "" || ["src/util.AttachmentsMap.AddPkgFunctionAttachment", "src/util.AttachmentsMap.AddPkgTypeAttachment",
+            "src/util.AttachmentsMap.AddPkgTypeMethodAttachment", "src/util.TypeAssociationRegistry.Add", "src/util.TypesMap.Add"].contains m.1 then none
+        else some s!"lookup-{m.1}-shared-between-concurrent-checkers-writes-its-receiver-at-{m.2.replace " " ","}")
     | "C19" => if GGV.Gen.maxLineLength < 4 then ["MaxLineLength-below-4"] else
                (if GGV.Gen.contextBefore != 2 || GGV.Gen.contextAfter != 1 then [s!"context-is-{GGV.Gen.contextBefore}-{GGV.Gen.contextAfter}-not-2-1"] else [])
     | "C18" => if GGV.Gen.defaultScanTests != false || GGV.Gen.defaultExcludePaths != ["testdata"] || GGV.Gen.defaultExcludeChecks != [] then ["defaults-differ-from-documented"] else []
